@@ -20,7 +20,7 @@ from wikitextprocessor import WikiNode
 PROP = "C19"
 LEVEL = "exploration"
 
-ATOMS = ["x", "y z", "p [[ q", "p ]] q", "[[a]]"]
+ATOMS = ["x", "y z", "p [[ q", "p ]] q", "[[a]]", "{{PAGENAME:}}", "{{PAGENAME}}", "{{#if:|}}", "{{t|}}", "{{t||x}}", "{{lc:}}"]
 WRAPS = ["'''%s'''", "''%s''", "[[a|%s]]", "{{t|%s}}", "{{t|k=%s}}", "{{#if:x|%s|z}}", '<span class="c">%s</span>',
          "<b>%s</b>", "[http://x.y %s]", "{{{p|%s}}}"]
 BLOCKS = [
@@ -280,7 +280,7 @@ def gen_docs(tier):
                 singles1.append(b % ((x,) * k))
     docs = [(d, True) for d in docs]
     # pairs of blocks
-    rep = singles1 if not q else singles1[::3]
+    rep = singles1 if not q else singles1[::7]
     for a, b in itertools.product(rep, repeat=2):
         docs.append((a + b, not q))
     if not q:
